@@ -106,6 +106,8 @@ MUTANTS: Dict[str, List[Tuple[str, str, str, Optional[str]]]] = {
         ("pyttb/cp_als.py", "    U = init.copy().factor_matrices", "    U = init.factor_matrices", "INIT"),
     ],
     "C10": [
+        ("pyttb/hosvd.py", "eigsumthresh = ((tol**2) * normxsqr) / d", "eigsumthresh = max(((tol**2) * normxsqr) / d, np.finfo(float).eps)", "THR"),
+        ("pyttb/hosvd.py", "G = Y.ttm(factor_matrices, transpose=True)", "G = Y.ttm(factor_matrices, dimorder, transpose=True)", "TTM-T"),
         ("pyttb/hosvd.py", "ranks[k] = np.where(eigsum > eigsumthresh)[0][-1] + 1", "ranks[k] = np.where(eigvec > eigsumthresh)[0][-1] + 1", "THR"),
         ('pyttb/tucker_als.py', '        for n in dimorder:\n', '        for n, rank_n in zip(dimorder, rank):\n', 'SLOT'),
         ("pyttb/hosvd.py", "factor_matrices[k] = V[:, pi[0 : ranks[k]]]", "factor_matrices[k] = V[:, pi[0 : ranks[k] + 1]]", "UNITS"),
@@ -115,6 +117,7 @@ MUTANTS: Dict[str, List[Tuple[str, str, str, Optional[str]]]] = {
         ("pyttb/tucker_als.py", "normresidual = np.sqrt(abs(normX**2 - core.norm() ** 2))", "normresidual = np.sqrt(abs(normX**2 - core.norm()))", "FIT"),
     ],
     "C11": [
+        ("pyttb/cp_apr.py", "    f = 0\n    for i in range(dX.shape[0]):\n", "    f = np.sum(dX * np.log(dM, where=dM > 0, out=np.zeros_like(dM)))\n    for i in range(0):\n", "LL"),
         ('pyttb/cp_apr.py', '        skip_zeros = data_row != 0', '        skip_zeros = b_pi > 0', 'LL'),
         ("pyttb/cp_apr.py", "        model_new = model_old * phi_row  # multiplicative update\n\n        # Project to the constraints and reevaluate the subproblem objective\n        model_new *= model_new > 0\n", "        model_new = model_old * phi_row  # multiplicative update\n\n", "PROJ"),
         ("pyttb/cp_apr.py", "\"kktViolations\": kktViolations[: iteration + 1],\n        \"nInnerIters\"", "\"kktViolations\": kktViolations[:iteration],\n        \"nInnerIters\"", "TRACE"),
@@ -153,6 +156,7 @@ MUTANTS: Dict[str, List[Tuple[str, str, str, Optional[str]]]] = {
         ("pyttb/tensor.py", "                    self.data.ravel(order=self.order)\n                    != self.data[tuple(classidx.transpose())]", "                    self.data.ravel(order=\"C\")\n                    != self.data[tuple(classidx.transpose())]", "EO-2"),
     ],
     "C16": [
+        ("pyttb/import_data.py", "    subs = np.zeros((nz, n), dtype=\"int64\")\n", "    index_base = index_base or 1\n    subs = np.zeros((nz, n), dtype=\"int64\")\n", "IO-base"),
         ('pyttb/export_data.py', '    data.tofile(fp, sep="\\n", format=fmt_data)', '    np.ravel(data, order="K").tofile(fp, sep="\\n", format=fmt_data)', 'IO-layout'),
         ("pyttb/export_data.py", "    if not fmt_data:\n        fmt_data = \"%.16e\"\n    data.tofile(fp, sep=\"\\n\", format=fmt_data)", "    if not fmt_data:\n        fmt_data = \"%.8e\"\n    data.tofile(fp, sep=\"\\n\", format=fmt_data)", "IO-fmt"),
         ("pyttb/export_data.py", "subs = A.subs[i, :] + 1", "subs = A.subs[i, :]", "IO-base"),
@@ -167,6 +171,7 @@ MUTANTS: Dict[str, List[Tuple[str, str, str, Optional[str]]]] = {
         ("pyttb/pyttb_utils.py", "    valid, location = tt_ismember_rows(\n        MatrixBUnique[np.argsort(idxB)], MatrixAUnique[np.argsort(idxA)]\n    )\n    return location[valid]", "    valid, location = tt_ismember_rows(\n        MatrixBUnique[np.argsort(idxB)], MatrixAUnique\n    )\n    return location[valid]", "HELP-dom"),
     ],
     "C18": [
+        ("pyttb/hosvd.py", "eigsumthresh = ((tol**2) * normxsqr) / d", "eigsumthresh = max(((tol**2) * normxsqr) / d, np.finfo(float).eps)", "SCALE"),
         ("pyttb/gcp_opt.py", "        init.normalize(\"all\")\n        return init", "        init.copy().normalize(\"all\")\n        return init", "EFFECT"),
         ('pyttb/cp_apr.py', '                mu = mu0\n', '                pass\n', 'ROWS'),
         ("pyttb/tucker_als.py", "            print(f\" Iter {iteration}: fit = {fit:e} fitdelta = {fitchange:7.1e}\")", "            fitchange = float(f\"{fitchange:7.1e}\")\n            print(f\" Iter {iteration}: fit = {fit:e} fitdelta = {fitchange:7.1e}\")", "TAINT"),
